@@ -119,6 +119,17 @@ CHECKS = {
        "set (all models with -a), probe events of enabled models are accepted and one of a disabled model is rejected.",
   note="Oracle: major equal and minor not greater, patch ignored. Strings that strtol tolerates by accident are "
        "recorded, not judged."),
+ "C15": dict(
+  cat="exploration", ref="DESIGN.md section 3, C15",
+  technique="runtime monitoring, metamorphic: variants of one trace differing only in attribute distribution / element order / stream creation order must give byte-identical emulator output in the documented row order; single contradictions must fail cleanly",
+  text="Random systems (1-3 looms, 1-3 processes, 1-4 threads, ranks on all/some/no looms, CPUs with random physical "
+       "ids) with one fixed event history are written in 6-12 variants: app_id and rank/nranks on arbitrary non-empty "
+       "subsets of a process's threads, loom_cpus split into overlapping sub-lists in arbitrary element order over the "
+       "loom's threads, streams created in shuffled order. The real ovniemu must accept every variant and produce "
+       "byte-identical .prv/.pcf/.row whose rows follow the documented order (reference system model). Fifteen kinds of "
+       "single contradictions must end with exit status 1 and an ERROR line - not a signal, not success.",
+  note="The union of the metadata is held fixed across variants by construction; only accepted-by-specification "
+       "distributions are generated (every loom keeps its CPUs, every process its app id)."),
 }
 
 NOT_YET = "check not implemented yet in this revision (work in progress, see DESIGN.md section 3)"
